@@ -297,7 +297,7 @@ func (e *Exec) checkFrameRangeT(st *State, elemT types.Type, ref, lo, hi Term, p
 	e.allFields(elemT, func(owner types.Type, f *types.Var) {
 		key := fieldKey(owner, f.Name())
 		if e.dry > 0 {
-			e.dryStores = append(e.dryStores, dryStore{key, ref})
+			e.dryStores = append(e.dryStores, dryStore{key: key, ref: ref, coarse: true})
 		}
 		allowed := []Term{Ge(ref, e.alloc0), Ge(lo, hi)}
 		for _, m := range e.modRefs {
@@ -316,7 +316,7 @@ func (e *Exec) checkFrameRangeT(st *State, elemT types.Type, ref, lo, hi Term, p
 
 func (e *Exec) checkFrameRange(st *State, key string, ref, lo, hi Term, p token.Pos) {
 	if e.dry > 0 {
-		e.dryStores = append(e.dryStores, dryStore{key, ref})
+		e.dryStores = append(e.dryStores, dryStore{key: key, ref: ref})
 	}
 	if e.noFrame || e.contract == nil {
 		return
@@ -795,7 +795,7 @@ func (e *Exec) havocLocs(st *State, locs []modLoc, p token.Pos) {
 		if l.any {
 			e.heapHavoc(st, l.key)
 			if e.dry > 0 {
-				e.dryStores = append(e.dryStores, dryStore{l.key, e.fresh("anyref", SInt)})
+				e.dryStores = append(e.dryStores, dryStore{key: l.key, ref: e.fresh("anyref", SInt)})
 			}
 			continue
 		}
@@ -822,7 +822,7 @@ func (e *Exec) havocLocs(st *State, locs []modLoc, p token.Pos) {
 			st.pc = saved
 			e.reparentSince(n0, saved.S)
 			if e.dry > 0 {
-				e.dryStores = append(e.dryStores, dryStore{l.key, l.earr})
+				e.dryStores = append(e.dryStores, dryStore{key: l.key, ref: l.earr, coarse: true})
 			}
 			x := Term{"x!o", SInt}
 			nh := e.fresh("fldmap", m.sort)
